@@ -55,7 +55,8 @@ func Assert_subroutine_called(ctx *context.Context, args ...value.Value) (value.
 	}
 
 	call, ok := ctx.SubroutineCalls[name]
-	if !ok {
+	// A subroutine which is never called is called 0 times
+	if !ok && times != 0 {
 		if message != "" {
 			return &value.Boolean{}, errors.NewAssertionError(args[0], "%s", message)
 		}
